@@ -131,7 +131,10 @@ def nary_family():
             out.append(['ch', 'kw', ['f', 'd'], dict(zip(['ab', 'cd'][:n], [list(o) for o in opts]))])
             out.append(['ch', 'kw', ['bin', 'getitem', ['f', 'd'], ['sl', 0, 2]], dict(zip(['cd', 'ab'][:n], [list(o) for o in opts]))])
     conds = [['f', 'a'], ['bin', 'lt', ['f', 'a'], ['f', 'b']], ['bin', 'eq', ['f', 'a'], ['c', 1]], ['un', 'truth', ['f', 'b']],
-             ['bin', 'gt', ['c', 1], ['f', 'a']], ['un', 'len', ['f', 's']], ['bin', 'and_', ['f', 'a'], ['c', 2]]]
+             ['bin', 'gt', ['c', 1], ['f', 'a']], ['un', 'len', ['f', 's']], ['bin', 'and_', ['f', 'a'], ['c', 2]],
+             # conditions that are not numbers: byte strings, lists, slices (empty ones are false)
+             ['f', 'd'], ['f', 's'], ['bin', 'getitem', ['f', 's'], ['sl', 1, None]], ['bin', 'getitem', ['f', 'd'], ['sl', None, 1]],
+             ['bin', 'getitem', ['f', 's'], ['c', 0]]]
     for c in conds:
         for x, y in itertools.permutations(opts_pool, 2):
             out.append(['ite', 'pos', c, list(x), list(y)])
